@@ -15,7 +15,7 @@ from session import tla_val   # noqa: E402
 ASSUME = ['the value -> yabgp dict rendering of harness/wire_map.py (documented input/output forms of Update.construct / Update.parse)',
           'TLC/SANY, CommunityModules Json/IOUtils', 'bounded value pools of spec/WireUpdate.tla (boundary values per field); not a proof about the Python code']
 FAMILIES = {'C06': ['upd'], 'C08': ['upd', 'openrt', 'notif', 'rr', 'ka'], 'C09': ['upd', 'updvar', 'cor'],
-            'C14': ['open', 'openrt', 'notif', 'rr', 'ka']}
+            'C14': ['open', 'openrt', 'notif', 'rr', 'ka'], 'C17': ['comm']}
 CACHE = os.path.join(os.path.dirname(HERE), '.cache')
 
 
@@ -43,6 +43,11 @@ def _work(args):
     return codec_worker.work(args)
 
 
+def _work_comm(args):
+    import comm_worker
+    return comm_worker.work(args)
+
+
 def validate(ndjson, props):
     cfg = 'CONSTANTS PROPS = %s\nINIT Init\nNEXT Next\nPOSTCONDITION AllConsumed\nCHECK_DEADLOCK FALSE\n' % tla_val(sorted(props))
     st, text = tlc.run('TraceWire', cfg, workers=1, timeout=7200, env={'TRACE_FILE': ndjson})
@@ -65,7 +70,7 @@ def run(prop, tier, seed):
         procs = 16
         chunks = [items[i::procs] for i in range(procs)]
         with mp.get_context('fork').Pool(procs) as pool:
-            res = pool.map(_work, [(k, ch, work) for k, ch in enumerate(chunks) if ch])
+            res = pool.map(_work_comm if prop == 'C17' else _work, [(k, ch, work) for k, ch in enumerate(chunks) if ch])
         nd = os.path.join(work, 'all.ndjson')
         with open(nd, 'w') as out:
             for p, n in res:
@@ -85,12 +90,22 @@ def run(prop, tier, seed):
             sig = {'kind': r['pst'], 'cls': r['cls']}
             payload = {'property': prop, 'kind': 'codec-vector', 'clause': r['clause'], 'signature': sig, 'vector': vecs[r['tid']],
                        'result': {k: d.get(k) for k in ('raised', 'none', 'rt_ok', 'dec_ok', 'dec_err', 'diff', 'ddiff')},
-                       'impl_hex': bytes(d.get('impl', [])).hex(), 'ref_hex': bytes(d.get('ref', [])).hex()}
+                       'impl_hex': bytes(d.get('impl', d.get('bin', []))).hex(), 'ref_hex': bytes(d.get('ref', [])).hex(), 'text': d.get('text')}
             v.reject(r['clause'], sig, payload, (d.get('diff') or d.get('ddiff') or '')[:200])
         # binding self-test: flip one octet of a recorded encoding / one flag -> must be rejected
         ok = False
         for line in open(nd):
             d = json.loads(line)
+            if d['kind'] == 'comm' and d['accepted'] and d['text2_same']:
+                bad = dict(d)
+                bad['ref'] = list(d['ref'])
+                bad['ref'][-1] = (bad['ref'][-1] + 1) % 256
+                p = os.path.join(work, 'self.ndjson')
+                with open(p, 'w') as o2:
+                    o2.write(json.dumps(bad) + '\n')
+                rj, _ = validate(p, {prop})
+                ok = any(x['clause'].startswith(prop) for x in rj)
+                break
             if d['kind'] in ('upd', 'notif') and d['impl'] and d['rt_ok'] and d['dec_ok']:
                 bad = dict(d)
                 if prop in ('C06', 'C14'):
@@ -114,7 +129,7 @@ def run(prop, tier, seed):
         classes = set()
         for line in open(nd):
             d = json.loads(line)
-            classes.add((d['kind'], d['cls'], d['asn4']))
+            classes.add((d['kind'], d['cls'], d['asn4'], tuple(d['ref'][:2]) if d['kind'] == 'comm' else ()))
         with open(nd) as fh:
             smp = json.loads(next(fh))
         cov = {'evaluations': len(vecs), 'distinct_nontrivial': len(classes),
@@ -123,7 +138,7 @@ def run(prop, tier, seed):
                        'types and lengths across the 255-octet boundary in both AS modes, every pair of optional attribute kinds, all together), enumerated by TLC; '
                        'C09 adds every legal variant (extended length, dirty trailing bits, add-path ids, reversed/rotated attribute order, AS4_PATH/AS4_AGGREGATOR, '
                        'unknown attributes) and 15 single-field corruptions; distinct = distinct (kind, attribute-kind set, list sizes, AS mode) classes',
-               'samples': [{'vector': vecs[smp['id']], 'result': {k: smp[k] for k in smp if k not in ('ref', 'impl')}, 'impl_hex': bytes(smp['impl']).hex()}],
+               'samples': [{'vector': vecs[smp['id']], 'result': {k: smp[k] for k in smp if k not in ('ref', 'impl')}, 'impl_hex': bytes(smp.get('impl', smp.get('bin', []))).hex()}],
                'vectors_by_kind': kinds, 'tlc_generation': gstats, 'lines_validated_by_tlc': vst.get('distinct', 1) - 1, 'rejected': len(rej),
                'binding_selftest': {'rejected_as_required': True}, 'exhaustive': True}
         rc = v.finish()
